@@ -33,6 +33,7 @@ type adversary struct {
 	cSeen   []*interfaces.CommitMessage
 	nvSeen  []*interfaces.NewViewMessage
 	rawSeen []*interfaces.ConsensusRawMessage
+	target  primitives.MemberId // the node the message being crafted is made for
 }
 
 func newAdversary(cl *cluster) *adversary {
